@@ -580,6 +580,107 @@ def family(ctx: Ctx, drv: Optional[Driver]) -> None:
         compare(ctx, reqs, pend, drv)
 
 
+# ------------------------------------------------------------------------------------------------
+# the same path strings on documents of different namespaces, interleaved in one process: a path denotes
+# element names only together with the namespace map it is used with (prefix -> URI, default namespace)
+TWIN_XSD = '''<xs:schema xmlns:xs="http://www.w3.org/2001/XMLSchema" targetNamespace="{ns}" xmlns:t="{ns}"
+   elementFormDefault="qualified">
+ <xs:element name="root"><xs:complexType><xs:sequence>
+   <xs:element name="x"><xs:complexType><xs:sequence><xs:element name="item" type="xs:int" maxOccurs="3"/></xs:sequence></xs:complexType></xs:element>
+   <xs:element name="y"><xs:complexType><xs:sequence><xs:element name="item" type="xs:boolean" maxOccurs="3"/></xs:sequence>
+        <xs:attribute name="k" type="xs:int"/></xs:complexType></xs:element>
+   <xs:element ref="t:z" minOccurs="0"/>
+ </xs:sequence></xs:complexType></xs:element>
+ <xs:element name="z" type="xs:date"/>
+</xs:schema>'''
+
+
+def twin_namespaces(ctx: Ctx) -> None:
+    import xmlschema
+    from xml.etree import ElementTree as ET
+    nss = ['urn:twin:a', 'urn:twin:b', 'urn:twin:c']
+    schemas = {ns: xmlschema.XMLSchema(TWIN_XSD.format(ns=ns)) for ns in nss}
+    bodies = {
+        'valid': '<x><item>1</item><item>2</item></x><y k="3"><item>true</item></y><z>2020-01-01</z>',
+        'bad-x': '<x><item>1</item><item>oops</item></x><y><item>false</item></y>',
+        'bad-y': '<x><item>5</item></x><y k="q"><item>7</item><item>true</item></y><z>nope</z>',
+    }
+    styles = {'default': ('<root xmlns="{ns}">{b}</root>', '', None),
+              'prefix': ('<t:root xmlns:t="{ns}">{b}</t:root>', 't:', 't')}
+    jobs = []
+    for ns in nss:
+        for bname, body in bodies.items():
+            for sname, (tpl, pre, pfx) in styles.items():
+                b = body
+                if pre:
+                    b = b.replace('<', '<' + pre).replace('<' + pre + '/', '</' + pre)
+                xml = tpl.format(ns=ns, b=b)
+                for path_tpl in ('/{p}root/{p}x', '/{p}root/{p}x/{p}item', '/{p}root/{p}y', '/{p}root/{p}y/{p}item',
+                                 '/{p}root/{p}x/{p}item[2]', '/{p}root/{p}z', '{p}x/{p}item', '{p}y/{p}item',
+                                 '/{p}root/{p}y/{p}item[1]'):   # no `*` before the last step: known finding C20-F4
+                    jobs.append((ns, bname, sname, xml, path_tpl.format(p=pre)))
+    ctx.rng.shuffle(jobs)
+    for ns, bname, sname, xml, path in jobs[:ctx.pick(220, 10 ** 6)]:
+        schema = schemas[ns]
+        case = {'family': 'twin-namespaces', 'ns': ns, 'doc': bname, 'style': sname, 'path': path, 'xml': xml}
+        ctx.case(case, True, tag='twin/' + sname)
+        root = ET.fromstring(xml)
+        nsmap = {'t': ns} if sname == 'prefix' else {'': ns}
+        # the elements the path selects, by an independent reading of the child steps
+        steps = [st for st in path.strip('/').split('/')]
+        if path.startswith('/'):
+            steps = steps[1:]              # the first step names the root itself
+        cur = [root]
+        for st in steps:
+            pos = None
+            if '[' in st:
+                st, pos = st[:-1].split('[')
+                pos = int(pos)
+            name = st.split(':')[-1]
+            nxt = []
+            for e in cur:
+                kids = [c for c in e if st == '*' or c.tag == '{%s}%s' % (ns, name)]
+                if pos is not None:
+                    kids = kids[pos - 1:pos]
+                nxt.extend(kids)
+            cur = nxt
+        full_errors = list(schema.iter_errors(xml))
+        selected_ids = set()
+        for e in cur:
+            for d in e.iter():
+                selected_ids.add(id(d))
+        # compare through positions (the full run works on its own parse of the same text)
+        order = {id(e): i for i, e in enumerate(root.iter())}
+        sel_pos = {order[i] for i in selected_ids}
+        full_root = None
+        exp = []
+        for err in full_errors:
+            if full_root is None:
+                r = err.elem
+                # climb is not available on ElementTree: map by document order in the error's own root
+                full_root = err.source.root if err.source is not None else None
+            if full_root is not None and err.elem is not None:
+                pos_map = {id(e): i for i, e in enumerate(full_root.iter())}
+                if pos_map.get(id(err.elem)) in sel_pos:
+                    exp.append(norm_reason(err))
+        try:
+            got = [norm_reason(e) for e in schema.iter_errors(xml, path=path, namespaces=nsmap)]
+            valid = schema.is_valid(xml, path=path, namespaces=nsmap)
+        except Exception as ex:   # noqa
+            ctx.failure('path-selected validation raised', case, {'error': type(ex).__name__, 'msg': str(ex)[:200]})
+            continue
+        if cur and not any('IDREF' in x or 'key' in x for x in exp + got):
+            if sorted(got) != sorted(exp) or valid != (not exp):
+                ctx.failure('validating only the part selected by a path differs from the full result for that part',
+                            case, {'selected_elements': len(cur), 'partial_errors': got, 'full_errors_in_part': exp,
+                                   'partial_is_valid': valid})
+
+
+def norm_reason(e: Any) -> str:
+    import re
+    return re.sub(r' at 0x[0-9a-f]+', '', str(e.reason or ''))[:120]
+
+
 def run_one(ctx: Ctx, drv: Optional[Driver], xsd: str, xml: bytes) -> None:
     import xmlschema
     schema = xmlschema.XMLSchema(xsd)
@@ -604,6 +705,7 @@ def run(ctx: Ctx, driver_ok: bool) -> None:
         for f in sorted(d.glob('*.json')):
             obj = json.loads(f.read_text())
             run_one(ctx, drv, obj['xsd'], obj['xml'].encode())
+    twin_namespaces(ctx)
     family(ctx, drv)
 
 
